@@ -109,6 +109,46 @@ def run_tree(case):
     return {"nontrivial": bool(nt), "labels": sorted(labels)}
 
 
+@st.composite
+def plus_case(draw):
+    """left + right where the left circuit already owns private ancillas (and perhaps heralds of its own)."""
+    left = draw(gen.addition_tree(max_n=4, max_adds=2, lossy=False))
+    n = left["n"]
+    anc = gen.dims(left)[0] - n
+    size = draw(st.sampled_from(["visible", "visible", "full"]))
+    k = n if size == "visible" else n + anc
+    right = draw(gen.flat_program(min_n=k, max_n=k, max_ops=3, lossy=False)) if k >= 2 else \
+        {"n": k, "ops": [["ps", 0, 0.7, 0]]}
+    return {"left": left, "right": right, "size": size, "iseed": draw(st.integers(0, 10 ** 6))}
+
+
+def run_plus(case):
+    """`left + right` either refuses (it is documented for circuits of equal size without such structure) or is the
+    composition of the two under the C02 wiring, i.e. right added at user mode 0 of left."""
+    from vlib.build import build_real
+    left = call("build left", build_real, case["left"])
+    right = call("build right", build_real, case["right"])
+    has_anc = bool(left._internal_modes) or bool(left.heralds["input"])
+    try:
+        total = left + right
+    except Exception as e:  # noqa: BLE001
+        from vlib.harness import from_lightworks
+        import lightworks as lw
+        if isinstance(e, (lw.sdk.utils.LightworksError, NotImplementedError, ValueError, TypeError)):
+            return {"nontrivial": has_anc, "labels": ["plus-refused:" + type(e).__name__]}
+        if from_lightworks(e):
+            raise Violation(f"left + right failed with {type(e).__name__}: {e}", key="plus-crashed") from e
+        raise
+    prog = {"n": case["left"]["n"], "ops": list(case["left"]["ops"]) + [["add", case["right"], 0, False, None]]}
+    if case["size"] != "visible" and has_anc and gen.dims(case["left"])[0] != case["left"]["n"]:
+        raise Violation("left + right was accepted although right has as many modes as left has *including* its "
+                        "private ancillas: its components cannot have been placed on user-visible modes only",
+                        key="plus-on-ancilla-modes")
+    w = build_model(prog)
+    compare(total, w, case["iseed"])
+    return {"nontrivial": has_anc, "labels": ["plus-accepted"]}
+
+
 # ---------------------------------------------------------------- exhaustive
 def child_prog(k, heralds, seed):
     """k-mode haar unitary with heralds [(n, i, o), ...] declared in given order."""
@@ -183,6 +223,7 @@ def subs(tier):
         Sub("addition-trees", run_tree, strategy=case_adds, examples=150 if q else 4000),
         Sub("trees", run_tree, strategy=case, examples=100 if q else 2500),
         Sub("trees-small", run_tree, strategy=case_small, examples=100 if q else 2500),
+        Sub("plus-with-ancillas", run_plus, strategy=plus_case(), examples=40 if q else 1500),
         Sub("two-additions-exhaustive", run_two,
             cases=lambda: two_addition_cases(full=not q), exhaustive=True),
     ]
